@@ -1,0 +1,21 @@
+//go:build verif
+
+package collections
+
+import "sort"
+
+// VerifCache reports the length of the cached sorted point list and whether it is exactly
+// the key set of the ring map in strictly increasing order.
+// Read-only probe for the verification harness (/verif, property C17).
+func (c *Consistent) VerifCache() (n int, points int, ok bool) {
+	keys := make([]uint32, 0, len(c.circle))
+	for k := range c.circle {
+		keys = append(keys, k)
+	}
+	sort.Slice(keys, func(i, j int) bool { return keys[i] < keys[j] })
+	ok = len(keys) == len(c.sortedHash)
+	for i := 0; ok && i < len(keys); i++ {
+		ok = keys[i] == c.sortedHash[i]
+	}
+	return len(c.sortedHash), len(c.circle), ok
+}
